@@ -244,6 +244,37 @@ theorem placement_executes_greedily (t0 tick : Nat) (trading : Bool) (ht : 0 < t
   rw [hs] at this
   exact this
 
+/-- **C01, second sentence, for every reachable state**: "Whatever then remains of a limit order rests at its limit
+price behind every order already at that price, and whatever remains of a market order is discarded."
+With `rem` what the greedy allocation leaves of the placed order `o`: `rem = 0` — Filled, ended at the book
+time, own side's queue unchanged; market order with `rem > 0` — Cancelled, ended at the book time, queue unchanged;
+limit order with `rem > 0` — Active, and its side's queue is `Ref.enqueue … id o.price`: by `ref_enqueue_position`
+that is the old queue with `id` inserted behind every resting order whose price is better or equal and ahead of the
+others, nobody else moved. (Queues are read off the implementation model's keyed map in key order: `absq`.) -/
+theorem remainder_rests_or_is_discarded (t0 tick : Nat) (trading : Bool) (ht : 0 < tick) (ops : List Op)
+    (hv : ∀ op ∈ ops, ValidOp op) (hnf : NoFault (Book.new t0 tick trading) ops)
+    (id : Nat) (e : Entry)
+    (he : ((Book.new t0 tick trading).run ops).orders[id]? = some e) (hnew : e.order.status = .new)
+    (htr : ((Book.new t0 tick trading).run ops).trading = true)
+    (hnf' : (((Book.new t0 tick trading).run ops).placeOrder id).faulted = false) :
+    let b := (Book.new t0 tick trading).run ops
+    let s := Ref.run (Ref.init t0 tick trading) ops
+    let o := e.order
+    let adm := (s.queue o.side.opp).filter fun j => Ref.admits o.side o.price (Ref.priceOf s.orders j)
+    let rem := o.vol - (Ref.alloc o.vol (adm.map (Ref.volOf s.orders))).sum
+    ∃ e', (b.placeOrder id).orders[id]? = some e' ∧ e'.order.vol = rem ∧
+      (rem = 0 → e'.order.status = .filled ∧ e'.order.endt = b.t ∧ absq ((b.placeOrder id).side o.side) = s.queue o.side) ∧
+      (0 < rem → Book.isMarket o = true →
+        e'.order.status = .cancelled ∧ e'.order.endt = b.t ∧ absq ((b.placeOrder id).side o.side) = s.queue o.side) ∧
+      (0 < rem → Book.isMarket o = false →
+        e'.order.status = .active ∧ absq ((b.placeOrder id).side o.side) = Ref.enqueue s.orders o.side (s.queue o.side) id o.price) := by
+  intro b s o adm rem
+  have hs : abs ((Book.new t0 tick trading).run ops) = Ref.run (Ref.init t0 tick trading) ops :=
+    state_is_reference_state t0 tick trading ht ops hv hnf
+  have := place_rest (inv_reachable t0 tick trading ht ops hv hnf) id e he hnew htr hnf'
+  rw [hs] at this
+  exact this
+
 /-- **…"(or re-priced)".** The same closed form for a modification that re-prices an Active order (or raises
 its volume): it leaves its queue and executes, as the aggressor with its new limit and volume, the
 greedy allocation over every admissible opposite resting order in queue order. -/
@@ -306,10 +337,13 @@ example :
     ((s.queue .ask).filter fun j => Ref.admits .bid 10 (Ref.priceOf s.orders j)) = [2] ∧
     (((Book.new 0 1 true).run ops).placeOrder 4).trades =
       [{ t := 3, side := .ask, price := 10, vol := 4, active := 4, passive := 2 }] ∧
+    -- the bid 12 @ 10 keeps 8 and rests (Active, alone in the bid queue)
+    ((((Book.new 0 1 true).run ops).placeOrder 4).orders.map fun e => (e.order.vol, e.order.status))[4]? = some (8, .active) ∧
+    absq (((Book.new 0 1 true).run ops).placeOrder 4).bid = [4] ∧
     -- re-pricing the ask 5 @ 11 (id 0) down to 9 with a bid of 12 @ 10 resting: it executes against that bid
     ((((Book.new 0 1 true).run ops).placeOrder 4).modifyOrder 0 (some 9) none).trades.drop 1 =
       [{ t := 3, side := .bid, price := 10, vol := 5, active := 0, passive := 4 }] := by
-  refine ⟨?_, ?_, by decide, by decide, by decide, by decide, by decide, by decide⟩
+  refine ⟨?_, ?_, by decide, by decide, by decide, by decide, by decide, by decide, by decide, by decide⟩
   · intro op hop
     simp only [List.mem_cons, List.not_mem_nil, or_false] at hop
     rcases hop with h | h | h | h | h | h | h | h <;> subst h <;> simp [ValidOp, MAXP]
